@@ -43,6 +43,7 @@ def schema(items=(), types=(), abstract=(), keytype=None, datatype=None, handler
 
 
 WRAP = 'vf.dtsupport.wrap'
+WRAP2 = 'vf.dtsupport.wrap2'
 
 
 # ---------------------------------------------------------------------- family
@@ -106,6 +107,14 @@ def family():
                stype('tc', [key('kc')], extends='tb')],
         items=[multisection('aa', '+', attr='xs'),
                section('ta', '*', attr='sa')])
+    # implementers of one abstract type with different section datatypes, mixed in one slot
+    F['S13'] = schema(
+        types=[('abstract', 'aa'),
+               stype('ta', [key('ka')], implements='aa', datatype=WRAP),
+               stype('tb', [key('kb')], implements='aa'),
+               stype('tc', [key('kc')], implements='aa', datatype=WRAP2),
+               stype('td', [key('kd')], extends='tc')],
+        items=[multisection('aa', '*', attr='xs'), multisection('td', '+', attr='ds')])
     # ---- thorough-only members
     F['S9'] = schema(
         types=[stype('ta', [key('+', attr='mp', required=True)])],
@@ -130,7 +139,7 @@ def family():
     return F
 
 
-QUICK = ['S1', 'S2', 'S3', 'S4', 'S5', 'S6', 'S7', 'S8', 'S9']
+QUICK = ['S1', 'S2', 'S3', 'S4', 'S5', 'S6', 'S7', 'S8', 'S9', 'S13']
 THOROUGH = QUICK + ['S10', 'S11', 'S12']
 
 
